@@ -31,7 +31,7 @@ var purePrefixes = []string{
 	"crypto/sha256.", "(hash.", "(*crypto/sha256.", "golang.org/x/crypto/blake2b.", "encoding/json.Marshal", "(net/http.Header)", "net/http.Error",
 	"(*sync.WaitGroup)", "(*sync/atomic.", "sync/atomic.", "(google.golang.org/grpc/", "google.golang.org/grpc/status.", "google.golang.org/grpc/codes.", "google.golang.org/grpc/peer.", "google.golang.org/grpc/metadata.",
 	"(*google.golang.org/protobuf/types/known/timestamppb.Timestamp).AsTime", "google.golang.org/protobuf/types/known/timestamppb.",
-	"os.Getenv", "(*math/big.", "(" + modPath + "/internal/net.Peer).", "(*" + modPath + "/common/key.Identity).Address", "(*" + modPath + "/common/key.Node).Address",
+	"os.Getenv", "(*math/big.", "(error).Error", modPath + "/internal/net.RemoteAddress", "(" + modPath + "/internal/net.Peer).", "(*" + modPath + "/common/key.Identity).Address", "(*" + modPath + "/common/key.Node).Address",
 }
 
 func (e *Engine) isPure(key string) bool {
@@ -170,8 +170,34 @@ func (e *Engine) modKeys(fc *FuncContract, m ModLoc) (keys []string, all bool) {
 				return []string{s.V}, false
 			}
 		}
+		if (x.Fun == "mapof" || x.Fun == "elems") && len(x.Args) == 1 {
+			if t := e.staticType(fc, x.Args[0]); t != nil {
+				if _, isMap := t.Underlying().(*types.Map); isMap && x.Fun == "mapof" {
+					dk, _, vk, _, lk, _, _ := mapHeap(t)
+					return []string{dk, vk, lk}, false
+				}
+				if sl, isSl := t.Underlying().(*types.Slice); isSl && x.Fun == "elems" {
+					if es := sortOf(sl.Elem()); es != "" {
+						return []string{"E:" + es}, false
+					}
+				}
+			}
+		}
 	case ESel:
-		// needs type information: resolved dynamically at call sites; statically we over-approximate by field name
+		if bt := e.staticType(fc, x.X); bt != nil {
+			if p, ok := bt.Underlying().(*types.Pointer); ok {
+				bt = p.Elem()
+			}
+			if st := structFields(bt); st != nil {
+				for i := 0; i < st.NumFields(); i++ {
+					if st.Field(i).Name() == x.Name {
+						k, _ := e.fieldKey(bt, i)
+						return []string{k}, false
+					}
+				}
+			}
+		}
+		// fall back: over-approximate by field name
 		var out []string
 		e.mu.Lock()
 		for k := range e.heapSorts {
@@ -911,4 +937,49 @@ func stripTypeArgs(k string) string {
 		}
 	}
 	return b.String()
+}
+
+// staticType computes the Go type of a parameter / field-selection chain in a contract, from the signature
+// of the function the contract is attached to (no symbolic state needed).
+func (e *Engine) staticType(fc *FuncContract, x Expr) types.Type {
+	switch v := x.(type) {
+	case EIdent:
+		fn := e.funcsByKey[fc.Key]
+		var sig *types.Signature
+		if fn != nil {
+			sig = fn.Signature
+		}
+		if sig == nil {
+			return nil
+		}
+		var ts []types.Type
+		if sig.Recv() != nil {
+			ts = append(ts, sig.Recv().Type())
+		}
+		for i := 0; i < sig.Params().Len(); i++ {
+			ts = append(ts, sig.Params().At(i).Type())
+		}
+		for i, n := range fc.Params {
+			if n == v.Name && i < len(ts) {
+				return ts[i]
+			}
+		}
+	case ESel:
+		bt := e.staticType(fc, v.X)
+		if bt == nil {
+			return nil
+		}
+		if p, ok := bt.Underlying().(*types.Pointer); ok {
+			bt = p.Elem()
+		}
+		var pkg *types.Package
+		if n, ok := bt.(*types.Named); ok {
+			pkg = n.Obj().Pkg()
+		}
+		obj, _, _ := types.LookupFieldOrMethod(bt, true, pkg, v.Name)
+		if f, ok := obj.(*types.Var); ok {
+			return f.Type()
+		}
+	}
+	return nil
 }
